@@ -68,8 +68,8 @@ fn gen_op(rng: &mut StdRng, d: &Driver, profile: &str) -> Value {
         if profile == "par" {
             // grow a few large tables, then query them in parallel on different pools
             if !crowded && !many_issued && rng.gen_bool(0.35) {
-                let orders: [&[u8]; 4] = [&[2, 3], &[2], &[4, 2, 3, 0, 1], &[3, 4]];
-                let o = orders[rng.gen_range(0..4)].to_vec();
+                let orders: [&[u8]; 6] = [&[2, 3], &[2], &[4, 2, 3, 0, 1], &[3, 4], &[1, 8], &[2, 4]];
+                let o = if rng.gen_bool(0.3) { pick_order(rng) } else { orders[rng.gen_range(0..6)].to_vec() };
                 let n = rng.gen_range(3..14);
                 let rows: Vec<Vec<u32>> = (0..n).map(|_| vals(rng)).collect();
                 return json!({"op": "extend", "w": w, "order": o, "rows": rows, "extra": 0});
@@ -181,18 +181,6 @@ fn main() {
     let args: Vec<String> = std::env::args().collect();
     std::panic::set_hook(Box::new(|_| {})); // panics are data; keep stderr quiet
     if std::env::var("VERIF_HEAP").map(|v| v == "1").unwrap_or(true) {
-        // warm up lazily initialised state (rayon's global pool, thread-locals) before recording
-        {
-            let mut d = Driver::new(Box::new(std::io::sink()));
-            d.qfamily = Some(QFamily { n: qfamily::N_QUERIES, run: qfamily::run, needs_target: qfamily::needs_target });
-            let mut rng = StdRng::seed_from_u64(99);
-            for _ in 0..300 {
-                let op = gen_op(&mut rng, &d, "mixed");
-                if !d.exec(&op) { break; }
-            }
-            d.exec(&json!({"op": "reset"}));
-            comps::drain_ledger();
-        }
         heap::enable();
     }
     match args[1].as_str() {
